@@ -120,6 +120,12 @@ def family(base, rot):
     c = base.create_child_context()
     for f in fns[rot:] + fns[:rot]:
         c.register_function(f, name='vfOver')
+
+    # parameter names whose translated form is a reserved word of the host language (as the library's random(from_, to_)):
+    # in yaql they are names like any other
+    def kw(from_, to_=2, class_=3, global_='g'):
+        return ['kw', from_, to_, class_, global_]
+    c.register_function(kw, name='vfKw')
     return c
 
 
